@@ -296,6 +296,8 @@ def base_plan(rng, nodes=None, version=None, legacy_p=0.0):
     p = {'cluster': spec, 'version': v, 'contact': [0], 'requests': [], 'faults': [], 'nthreads': 1, 'exec': {}}
     if version is None and legacy_p and rng.random() < legacy_p:
         make_legacy(p, rng)
+    if rng.random() < 0.12:
+        p['reactor'] = 'asyncio'        # the second real reactor (AsyncioConnection on the virtual-time asyncio loop)
     return p
 
 
